@@ -164,7 +164,8 @@ Proof.
   unfold merge_views. fold (rewrites_of s b o). intros H h Hh.
   destruct (has_divergent (rewrites_of s b o)); [discriminate|].
   inversion H; subst v; clear H. cbn [v_heads].
-  apply normalize_covers. apply in_or_app. left. apply in_map. apply in_or_app.
+  apply normalize_covers. apply in_or_app. left. apply in_map. apply in_or_app. left.
+  apply in_or_app.
   destruct Hh as [Hs|[Ho Hb]]; [now left|right].
   apply filter_In. split; [assumption|]. apply negb_true_iff. apply not_true_iff_false.
   intros Hm. apply memc_In in Hm. contradiction.
@@ -348,17 +349,18 @@ Lemma dag_removed_hidden_spec dag heads merged :
   forall h a c, In h heads -> In a (op_ancestors dag [h]) ->
     visible (v_heads (view_at dag a)) c = true ->
     visible (v_heads (view_at dag h)) c = false ->
-    visible (v_heads merged) c = true -> divergent_in merged c = true.
+    visible (v_heads merged) c = true ->
+    kept_in_place dag heads merged c = true \/ under_conflicted_bookmark merged c = true.
 Proof.
   unfold dag_removed_hidden. rewrite forallb_forall. split.
   - intros H h a c Hh Ha Hva Hvh Hm. specialize (H h Hh). rewrite forallb_forall in H.
     specialize (H a Ha). rewrite forallb_forall in H.
     unfold visible in Hva at 1. apply memc_In in Hva. specialize (H c Hva).
-    rewrite Hvh, Hm in H. cbn in H. exact H.
+    rewrite Hvh, Hm in H. cbn in H. now apply orb_true_iff in H.
   - intros H h Hh. apply forallb_forall. intros a Ha. apply forallb_forall. intros c Hc.
     destruct (visible (v_heads (view_at dag h)) c) eqn:E1; [reflexivity|].
     destruct (visible (v_heads merged) c) eqn:E2; [|reflexivity]. cbn.
-    apply (H h a c Hh Ha); auto. unfold visible. now apply memc_In.
+    apply orb_true_iff. apply (H h a c Hh Ha); auto. unfold visible. now apply memc_In.
 Qed.
 
 (** Two operations with a single closest common ancestor: [merge_ops] is [merge_views] with
